@@ -71,8 +71,8 @@ TRUSTED_BASE = [
     "axioms: none (Print Assumptions of every theorem in props/*.v: Closed under the global context)",
     "translator harness/gen_coq.py (char_ranges.rs, builtin.rs, MAX_GUARD_SIZE, tab width -> coq/gen/*.v) and the "
     "independent predicate/width enumerator harness/oracle",
-    "extraction: ExtrOcamlBasic only (Extract Inductive bool, option, unit, list, prod, sumbool; Extraction "
-    "Blacklist String List); OCaml driver coq/extract/driver.ml (I/O, number conversion)",
+    "extraction: ExtrOcamlBasic only (Extract Inductive bool, option, unit, list, prod, sumbool, sumor; Extract "
+    "Inlined Constant andb, orb; no directive of our own); OCaml driver coq/extract/driver.ml (I/O, number conversion)",
     "correspondence harness (Python generators, Rust hook serialisers under cfg(lexgen_verif), comparison of "
     "automata up to isomorphism); translator harness/gencode.py (generated token stream -> GenCode.v syntax trees)",
     "modelled, not verified: rustc and the semantics of generated Rust, std (Peekable, Chars, len_utf8, "
